@@ -261,8 +261,14 @@ class ResolvePortRefs(ElabPass):
             self.fail(msg)
         # So `group` has two entries: a `NoConn` and a `PortRef`
         if isinstance(group[0], NoConn):
-            return self.replace_noconn(module, portref=group[1], noconn=group[0])
-        return self.replace_noconn(module, portref=group[0], noconn=group[1])
+            noconn, portref = group
+        else:
+            portref, noconn = group
+        # References to the port from within slices and concatenations also are connections to it
+        if portref._slices or portref._concats:
+            msg = f"Invalid `NoConn` on {portref}, which is also referenced by {list(portref._slices) + list(portref._concats)} in {module}"
+            self.fail(msg)
+        return self.replace_noconn(module, portref=portref, noconn=noconn)
 
     def replace_noconn(self, module: Module, portref: PortRef, noconn: NoConn):
         """Replace `noconn` with a newly minted `Signal` or `BundleInstance`."""
